@@ -305,6 +305,38 @@ pub fn run(ctx: &Ctx) {
             }
         }
     });
+    // ---- (3b) the key obtained from `Default`: it must behave exactly like the key decoded from its own bytes
+    //           (what is hashed is the stored encoding, what is multiplied is the stored point)
+    {
+        use ed25519_dalek::{Signature, VerifyingKey};
+        use signature::Verifier;
+        let dk = VerifyingKey::default();
+        let db = dk.to_bytes();
+        ctx.eval(1);
+        let again = VerifyingKey::from_bytes(&db);
+        let consistent = again.as_ref().map(|k| *k == dk && curve25519_dalek::edwards::EdwardsPoint::from(*k).compress().0 == curve25519_dalek::edwards::EdwardsPoint::from(dk).compress().0).unwrap_or(false);
+        if !consistent || ed::decompress(&db).map(|p| p.compress()) != Some(curve25519_dalek::edwards::EdwardsPoint::from(dk).compress().0) {
+            ctx.violation("verify.VerifyingKey::default", "the default key's point is not the decompression of its bytes", json!({"kind": "default_key", "bytes": hex(&db)}));
+        }
+        // signatures (R = [S]B, S) for a few S: accepted iff the documented rule accepts them under the key *bytes*
+        for sv in [0u64, 1, 2, 7, 1000] {
+            for mi in 0..4u8 {
+                let msg = vec![mi; mi as usize + 1];
+                let s_int = U::from_u64(sv);
+                let r = ed::mul_base(&s_int).compress();
+                let mut sig = [0u8; 64];
+                sig[..32].copy_from_slice(&r);
+                sig[32..].copy_from_slice(&s_int.to_le32());
+                drive(ctx, &db, &msg, &sig, None, "default_key_R=[S]B", &stats);
+                let got = dk.verify(&msg, &Signature::from_bytes(&sig)).is_ok();
+                let want = model_accepts(&db, &msg, &sig, None, false);
+                ctx.eval(1);
+                if got != want {
+                    ctx.violation("verify.VerifyingKey::default", &format!("Default key: accept={} but the documented rule for its bytes says {}", got, want), json!({"kind": "default_key", "bytes": hex(&db), "msg": hex(&msg), "sig": hex(&sig)}));
+                }
+            }
+        }
+    }
     // ---- (4) contexts longer than 255 bytes must be refused by every prehashed verifier
     for cl in [256usize, 257, 1000] {
         let seed = &sd[0];
